@@ -34,7 +34,10 @@ void jenv_free(void* p) noexcept;
 void* jenv_malloc(size_t size) noexcept;
 #define free jenv_free
 #define malloc jenv_malloc
-#include "../../../repo/asmjit/core/jitallocator.cpp"
+#if !defined(JENV_SUBJECT)
+#define JENV_SUBJECT "../../../repo/asmjit/core/jitallocator.cpp"   // (overridable: mutation experiments on a copy)
+#endif
+#include JENV_SUBJECT
 #undef malloc
 #undef free
 
